@@ -122,7 +122,7 @@ MaxOf(S) == CHOOSE x \in S : \A y \in S : x >= y
 XS(S) == {p.x : p \in S}
 TS(S) == {p.t : p \in S}
 
-IsSelector(fn) == fn \in {"min", "max", "first", "last"}
+IsSelector(fn) == fn \in {"min", "max", "first", "last", "firstlow"}
 NoT == -2
 
 \* Reduce(fn, S): S a non-empty set of points (of several series, possibly with equal times).
@@ -138,6 +138,10 @@ Reduce(fn, S) ==
     [] fn = "max"    -> LET x == MaxOf(XS(S)) IN [t |-> MinOf(TS({p \in S : p.x = x})), v |-> <<x, 1>>]
     [] fn = "first"  -> LET t == MinOf(TS(S)) IN [t |-> t, v |-> <<MaxOf(XS({p \in S : p.t = t})), 1>>]
     [] fn = "last"   -> LET t == MaxOf(TS(S)) IN [t |-> t, v |-> <<MaxOf(XS({p \in S : p.t = t})), 1>>]
+    \* CALIBRATED: first() of a BOOLEAN field breaks a tie on time towards false (BooleanFirstReduce), unlike
+    \* every other type; still independent of the arrival order.  The generator prints this variant next to
+    \* "first" for field s and the harness uses it when it made s a boolean field.
+    [] fn = "firstlow" -> LET t == MinOf(TS(S)) IN [t |-> t, v |-> <<MinOf(XS({p \in S : p.t = t})), 1>>]
     [] fn = "median" -> LET q == SortF(S, [p \in S |-> p.x])      \* by value (a multiset: points are distinct)
                             n == Len(q)
                         IN [t |-> NoT,
